@@ -109,6 +109,9 @@ func enclosingFuncs(path string, orig, mutated []byte) []string {
 				if ie, ok := t.(*ast.IndexExpr); ok {
 					t = ie.X
 				}
+				if ie, ok := t.(*ast.IndexListExpr); ok {
+					t = ie.X
+				}
 				if id, ok := t.(*ast.Ident); ok {
 					key = "(" + star + id.Name + ")." + fd.Name.Name
 				}
